@@ -392,6 +392,9 @@ type vfFamCOfferGen struct {
 	t     *rapid.T
 	local vfFamCLocal
 	pts   *vfFamCPTs
+	// keepCodecSpecificClock: never give H264/VP9/AV1 a clock rate other than 90000 (their
+	// payload formats mandate it; C15 owns what pion does with such an offer)
+	keepCodecSpecificClock bool
 }
 
 func (g *vfFamCOfferGen) localOf(kind string) []vfFamCCodec {
@@ -424,7 +427,10 @@ func (g *vfFamCOfferGen) codec(kind string) vfFamCCodec {
 	c.FB = nil
 	c.Name = vfFamCRecase(t, c.Name)
 	if rapid.IntRange(0, 11).Draw(t, "clockMut") == 0 {
-		c.Clock = rapid.SampledFrom([]uint32{8000, 16000, 44100, 48000, 90000}).Draw(t, "clock")
+		ln := strings.ToLower(c.Name)
+		if !(g.keepCodecSpecificClock && (ln == "h264" || ln == "vp9" || ln == "av1")) {
+			c.Clock = rapid.SampledFrom([]uint32{8000, 16000, 44100, 48000, 90000}).Draw(t, "clock")
+		}
 	}
 	if kind == "audio" && rapid.IntRange(0, 11).Draw(t, "chMut") == 0 {
 		c.Ch = rapid.SampledFrom([]uint16{0, 1, 2}).Draw(t, "ch")
@@ -497,12 +503,14 @@ func (g *vfFamCOfferGen) section(kind, mid string) vfFamCSection {
 	s.Dir = rapid.SampledFrom([]string{"sendrecv", "sendrecv", "sendonly", "recvonly"}).Draw(t, "dir")
 	n := rapid.IntRange(1, 5).Draw(t, "ncodecs")
 	seen := map[uint8]bool{}
+	seenIdent := map[string]bool{} // no endpoint lists one and the same format twice in a section
 	for i := 0; i < n; i++ {
 		c := g.codec(kind)
-		if seen[c.PT] {
+		if seen[c.PT] || seenIdent[c.ident()] {
 			continue
 		}
 		seen[c.PT] = true
+		seenIdent[c.ident()] = true
 		s.Codecs = append(s.Codecs, c)
 	}
 	if kind == "video" {
@@ -539,6 +547,42 @@ func (g *vfFamCOfferGen) section(kind, mid string) vfFamCSection {
 	return s
 }
 
+// vfFamCSoundSubset repairs a narrowed codec list: an RTX entry whose apt target was dropped
+// goes too (RFC 4588: apt names a payload type of the same media description), and at least
+// one primary codec of the original list stays.
+func vfFamCSoundSubset(kept, original []vfFamCCodec) []vfFamCCodec {
+	have := map[uint8]bool{}
+	for _, c := range kept {
+		if !c.isRTX() {
+			have[c.PT] = true
+		}
+	}
+	if len(have) == 0 {
+		for _, c := range original {
+			if !c.isRTX() {
+				kept = append([]vfFamCCodec{c}, kept...)
+				have[c.PT] = true
+				break
+			}
+		}
+	}
+	origHas := map[uint8]bool{}
+	for _, c := range original {
+		origHas[c.PT] = true
+	}
+	var out []vfFamCCodec
+	for _, c := range kept {
+		if c.isRTX() {
+			var apt uint8
+			if _, err := fmt.Sscanf(c.Fmtp, "apt=%d", &apt); err == nil && origHas[apt] && !have[apt] {
+				continue // its primary was dropped by the narrowing
+			}
+		}
+		out = append(out, c)
+	}
+	return out
+}
+
 // derive builds a later section of the same kind from an earlier one.
 func (g *vfFamCOfferGen) derive(first vfFamCSection, mid string) vfFamCSection {
 	t := g.t
@@ -551,9 +595,7 @@ func (g *vfFamCOfferGen) derive(first vfFamCSection, mid string) vfFamCSection {
 				s.Codecs = append(s.Codecs, c)
 			}
 		}
-		if len(s.Codecs) == 0 {
-			s.Codecs = append(s.Codecs, first.Codecs[len(first.Codecs)-1])
-		}
+		s.Codecs = vfFamCSoundSubset(s.Codecs, first.Codecs)
 	case 1: // the same codecs under new numbers
 		remap := map[uint8]uint8{}
 		for _, c := range first.Codecs {
@@ -595,8 +637,8 @@ func (g *vfFamCOfferGen) derive(first vfFamCSection, mid string) vfFamCSection {
 }
 
 // vfFamCGenOffer draws a sound offer. multi allows a second section of a kind.
-func vfFamCGenOffer(t *rapid.T, local vfFamCLocal, multi bool) (vfFamCOffer, *vfFamCOfferGen) {
-	g := &vfFamCOfferGen{t: t, local: local, pts: &vfFamCPTs{used: map[uint8]string{}}}
+func vfFamCGenOffer(t *rapid.T, local vfFamCLocal, multi bool, keepCodecSpecificClock bool) (vfFamCOffer, *vfFamCOfferGen) {
+	g := &vfFamCOfferGen{t: t, local: local, pts: &vfFamCPTs{used: map[uint8]string{}}, keepCodecSpecificClock: keepCodecSpecificClock}
 	var o vfFamCOffer
 	layouts := [][]string{{"audio"}, {"video"}, {"audio", "video"}, {"video", "audio"}}
 	if multi {
